@@ -93,7 +93,12 @@ pub fn run(ctx: &mut Ctx) {
             continue;
         }
         let mut dig: u64 = 0xcbf29ce484222325;
-        let total = 256 + random_per_instr;
+        // 256 boundary-pool pairs, then every value of the extended pools (source literals, special
+        // points of the elementary functions, each with neighbours) once as the TOP operand, then random pairs
+        let ext_i = gen::lits().ints.len();
+        let ext_f = gen::lits().floats.len();
+        let ext = ext_i.max(ext_f);
+        let total = 256 + ext + random_per_instr;
         for k in 0..total {
             case += 1;
             // the per-instruction digest must be shard independent: every shard runs every
@@ -109,6 +114,12 @@ pub fn run(ctx: &mut Ctx) {
                 ib = INT_POOL[k % 16];
                 fa = FLOAT_POOL[k / 16];
                 fbv = FLOAT_POOL[k % 16];
+            } else if k < 256 + ext {
+                let j = k - 256;
+                ia = gen::int(&mut r, Vals::Mixed);
+                ib = if ext_i > 0 { gen::lits().ints[j % ext_i] } else { gen::int(&mut r, Vals::Mixed) };
+                fa = gen::float(&mut r, Vals::Mixed);
+                fbv = if ext_f > 0 { gen::lits().floats[j % ext_f] } else { gen::float(&mut r, Vals::Mixed) };
             } else {
                 ia = gen::int(&mut r, Vals::Mixed);
                 ib = gen::int(&mut r, Vals::Mixed);
